@@ -5,7 +5,8 @@ HERE = os.path.dirname(os.path.abspath(__file__)); VERIF = os.path.dirname(HERE)
 sys.path.insert(0, os.path.join(VERIF, 'harness'))
 import catalog
 props = [json.loads(l) for l in open(os.path.join(VERIF, 'properties.jsonl'))]
-claimed = sorted(set(h['property'] for h in catalog.HARNESSES))
+ready = set(open(os.path.join(VERIF, 'harness', 'ready.txt')).read().split())
+claimed = sorted(set(h['property'] for h in catalog.HARNESSES) & ready)
 checks = []
 for pid in claimed:
     info = catalog.PROPERTY_INFO.get(pid, {})
